@@ -36,6 +36,13 @@ def gen(rng):
       pubs.append(["pub", nm, sig, rng.choice([1, 2, 1000])])
   if rng.random() < 0.3:
     pre.append(["pub", rng.choice(names), "A", 1])       # published before start: goes out once the publisher runs
+  if rng.random() < 0.5:
+    # a backlog in a subscriber's queue while publications are delivered: its handler for C takes one time unit,
+    # meanwhile two plain posts and the publications arrive (front/back of the queue become distinguishable)
+    nm = rng.choice(names)
+    spec = [s for s in aos if s["name"] == nm][0]
+    spec["handler_ops"].setdefault("C", []).append(["sleep", 1])
+    pubs = [["post", nm, "fifo", "C"], ["post", nm, "fifo", "B"], ["post", nm, "fifo", "B"]] + pubs
   starts = [["start", nm] for nm in names]
   rng.shuffle(starts)
   rng.shuffle(post1)
@@ -43,7 +50,11 @@ def gen(rng):
   drivers = {"d1": main}
   if rng.random() < 0.4:
     drivers["d2"] = [["settle"], ["pub", rng.choice(names), "A", 1], ["post", rng.choice(names), "fifo", "A"]]
-  return {"cap": 30, "aos": aos, "drivers": drivers}
+  cfg = {"cap": 30, "aos": aos, "drivers": drivers}
+  if rng.random() < 0.5:
+    # the fabric's registries are plain dicts and lists: pre-empt between the source lines of subscribe()
+    cfg["trace_funcs"] = [["activeobject.py", "subscribe"], ["activeobject.py", "_subscribe"], ["activeobject.py", "subscribed"]]
+  return cfg
 
 
 def _work(args):
